@@ -251,6 +251,15 @@ fn main() {
     nanos.extend([1_000_000_000, 1_000_000_001, 1_499_999_999, 1_500_000_000, 1_999_999_999, 1_999_999_995, 1_250_000_000]);
     let nd = dates.len() as u64;
     let only = replay_unit(&args);
+    // A fixed prologue on this thread, before any worker runs: the digit counts in ascending order, smallest first, then
+    // descending, so that a table or cache built lazily from "the first call" is built from the smallest input and
+    // every later call has to go beyond it (the parallel exploration would otherwise decide the first call by a race).
+    let mut pro = Acc::new(CLASSES.len(), 0);
+    if only.is_none() {
+        for d in (0..=12u16).chain((0..=12u16).rev()).chain([3, 6, 3, 9, 0, 256, 1]) {
+            subsec(&mut pro, d, &nanos);
+        }
+    }
     let acc = explore_units(nd + 1 + 256, CLASSES.len(), only, |u, acc| {
         if u < nd {
             let z = dates[u as usize];
@@ -313,5 +322,7 @@ fn main() {
         exhaustive: false,
         more: vec![("exhaustive_over".into(), json!("the small scope (all stamps x all spans x all operations) and all 65,536 digit counts"))],
     };
+    let mut acc = acc;
+    acc.merge(pro);
     finish(&spec, &args, start, acc, extra);
 }
